@@ -239,6 +239,19 @@ func c40(c *engine.Ctx) {
 		for _, call := range atois {
 			atoi := call.(*ssa.Call)
 			part := engine.Unwrap(atoi.Common().Args[0])
+			// every part of the message is a candidate: the part is an element
+			// of the whole strings.Split result, visited by a forward loop over
+			// that whole list (the number may stand first, in the middle or last)
+			n4++
+			okAll := false
+			if ld, isL := part.(*ssa.UnOp); isL && ld.Op == token.MUL {
+				if ia, isIA := ld.X.(*ssa.IndexAddr); isIA {
+					if sp := engine.CallOf(ia.X); sp != nil && engine.CalleeID(sp.Common()) == "strings.Split" {
+						okAll, _ = c39RangeIndex(ia.Index, ia.X)
+					}
+				}
+			}
+			c.Check(okAll, "C40.R4", "extractArgument/every-part-is-a-candidate", call.Pos(), "the numeric part is looked for among all parts of strings.Split(message, \"_\"): the scanned part must be an element of that whole list in a loop over all of it (is %s)", engine.Describe(part))
 			// range over the runes of the same part
 			var rng *ssa.Range
 			engine.Instrs(ea, func(i ssa.Instruction) {
